@@ -59,6 +59,16 @@ RESTRICTIONS = [
     ("skipping_whitespace_rule", "Zz1 = 'a';\nWhitespace = ' ';\n", {}),
     ("memoize_without_clone", "@memoize\nZz1 = 'a';\n", {"derives": ["Debug"]}),
     ("memoize_without_clone_empty_derives", "@memoize\nZz1 = 'a';\n", {"derives": []}),
+    # two (or three) restrictions broken by ONE rule: each must still be an error
+    ("double_export_string_and_skipping_whitespace", "Zz1 = 'a';\n@export\n@string\nWhitespace = {' '};\n", {}),
+    ("double_memoize_without_clone_and_skipping_whitespace", "Zz1 = 'a';\n@memoize\nWhitespace = {' '};\n", {"derives": ["Debug"]}),
+    ("double_export_string_and_memoize_without_clone", "@export\n@string\n@memoize\nZz1 = {'a'..'z'}+;\n", {"derives": ["Debug"]}),
+    ("double_export_on_plain_override_and_memoize_without_clone", "@export\n@memoize\nZz1 = @:Zz2;\nZz2 = 'b';\n", {"derives": ["Debug"]}),
+    ("double_position_on_plain_override_and_memoize_without_clone", "@position\n@memoize\nZz1 = @:Zz2;\nZz2 = 'b';\n", {"derives": ["Debug"]}),
+    ("triple_export_string_memoize_skipping_whitespace", "Zz1 = 'a';\n@export\n@string\n@memoize\nWhitespace = {' '};\n", {"derives": ["Debug"]}),
+    ("double_field_in_lookahead_and_mixed_override", "Zz1 = !(x:Zz2) @:Zz2 c:Zz3;\nZz2 = 'b';\nZz3 = 'c';\n", {}),
+    ("double_nonascii_insensitive_and_invalid_codepoint", "Zz1 = i'\u00e9' '\\u{D800}';\n", {}),
+    ("double_include_missing_and_string_export", "@export\n@string\nZz1 = 'a' >ZzNope;\n", {}),
     ("memoize_string_rule_without_clone", "@memoize\n@string\nZz1 = {'a'..'z'}+;\n", {"derives": ["Debug"]}),
     ("memoize_string_position_rule_without_clone", "@string\n@position\n@memoize\n@no_skip_ws\nZz1 = {'a'..'z'}+;\n", {"derives": ["Debug"]}),
     ("memoize_position_rule_without_clone", "@memoize\n@position\nZz1 = a:Zz2;\nZz2 = 'b';\n", {"derives": ["Debug", "PartialEq"]}),
@@ -266,7 +276,7 @@ class Cell:
         return {"fault": self.fault, "route": self.route, "expect": self.expect, "kind": self.kind,
                 "grammar": self.grammar.decode("utf-8", "backslashreplace") if self.grammar is not None else None,
                 "grammar_hex": self.grammar.hex() if self.grammar is not None else None,
-                "settings": {k: (v.hex() if isinstance(v, bytes) else v) for k, v in self.settings.items()}, "setup": self.setup, "faults": self.faults, "dest_setup": self.dest_setup,
+                "settings": {k: (v.hex() if isinstance(v, bytes) else [[("hex:" + x.hex() if isinstance(x, bytes) else x) for x in op] for op in v] if k == "script" else v) for k, v in self.settings.items()}, "setup": self.setup, "faults": self.faults, "dest_setup": self.dest_setup,
                 "format": self.fmt, "rustfmt": self.rustfmt, "timeout": self.timeout}
 
     @staticmethod
@@ -274,12 +284,41 @@ class Cell:
         g = bytes.fromhex(j["grammar_hex"]) if j.get("grammar_hex") is not None else None
         if j.get("settings") and "base" in j["settings"]:
             j["settings"]["base"] = bytes.fromhex(j["settings"]["base"])
+        if j.get("settings") and "script" in j["settings"]:
+            j["settings"]["script"] = [[(bytes.fromhex(x[4:]) if isinstance(x, str) and x.startswith("hex:") else x) for x in op] for op in j["settings"]["script"]]
         return Cell(j["fault"], j["route"], j["expect"], j["kind"], g, j.get("settings"), j.get("setup"), j.get("faults"),
                     j.get("dest_setup"), j.get("format", False), j.get("rustfmt", "present"), j.get("timeout"))
 
 
+def execute_script(cell, d, env, entropy):
+    """Several Compile values / runs inside ONE process (driver compile-script); the verdict is that of the LAST run."""
+    lines = []
+    for op in cell.settings["script"]:
+        f = [x.replace("{D}", d) if isinstance(x, str) else x for x in op]
+        if f[0] == "W":
+            lines.append("W\t%s\t%s" % (f[1], f[2].hex()))
+        else:
+            lines.append("\t".join(f))
+    sp = os.path.join(d, "cell.script")
+    with open(sp, "w") as fh:
+        fh.write("\n".join(lines) + "\n")
+    os.makedirs(os.path.join(d, "snap"), exist_ok=True)
+    c = run_child([sim_bin("driver"), "compile-script", sp, os.path.join(d, "snap")], d, env, entropy=entropy)
+    info = {"status": c.status_word(), "fired": [], "dest": None}
+    if c.crashed():
+        return "crash", c, info
+    res = [l.split("\t") for l in c.out.decode(errors="replace").splitlines() if l.startswith("RESULT\t")]
+    nruns = sum(1 for op in cell.settings["script"] if op[0] == "RUN")
+    if len(res) != nruns or c.rc != 0:
+        return "crash", c, info
+    info["script_results"] = [r[2] for r in res]
+    return ("ok" if res[-1][2] == "Ok" else "fail"), c, info
+
+
 def execute(cell, d, env, entropy):
     """Run one cell in directory d; returns (verdict, child, info). verdict in ok/fail/crash."""
+    if cell.route == "compile_script":
+        return execute_script(cell, d, env, entropy)
     os.makedirs(os.path.join(d, "src"), exist_ok=True)
     in_dir = cell.route == "compile_dir"
     gpath = os.path.join(d, "src", "g.ebnf")
@@ -507,6 +546,23 @@ def build_cells(seed, tier, pool):
             cells.append(Cell("%s_invalid_utf8%s" % (setup, sfx), "compile_dir", "fail", "io_read", b"Zz1 = 'a';\n# \xff\n", setup=setup, fmt=fmt))
     cells.append(Cell("nested_directory_unreadable", "compile_dir", "fail", "io_read", setup="nested_unreadable_dir", faults="open:/src/locked:0:e13"))
     cells.append(Cell("top_directory_unreadable", "compile_dir", "fail", "io_read", VALID, faults="open:/src:1:e13"))
+    # several runs / Compile values in ONE process: a failure must surface whatever the process compiled before
+    BROKEN = [("syntax_error", b"Zz1 = ('a' ;\n"), ("restriction", b"@export\n@string\nZz1 = 'a';\n"), ("include_of_missing_rule", b"Zz1 = 'a' >ZzNope;\n")]
+    for bname, broken in BROKEN:
+        G, OUT = "{D}/p/src/g.ebnf", "{D}/p/out.rs"
+        scripts = {
+            "same_relative_path_after_chdir": [["W", "{D}/a/src/g.ebnf", VALID], ["W", "{D}/b/src/g.ebnf", broken], ["CD", "{D}/a"], ["RUN", "r0", "--file", "src/g.ebnf", "--dest", "out.rs"],
+                                               ["CD", "{D}/b"], ["RUN", "r1", "--file", "src/g.ebnf", "--dest", "out.rs"]],
+            "grammar_broken_between_two_runs": [["W", G, VALID], ["RUN", "r0", "--file", G, "--dest", OUT], ["W", G, broken], ["RUN", "r1", "--file", G, "--dest", OUT]],
+            "grammar_broken_and_destination_deleted_between_two_runs": [["W", G, VALID], ["RUN", "r0", "--file", G, "--dest", OUT], ["RM", OUT], ["W", G, broken], ["RUN", "r1", "--file", G, "--dest", OUT]],
+            "directory_run_twice_grammar_broken_in_between": [["W", G, VALID], ["RUN", "r0", "--dir", "{D}/p/src"], ["W", G, broken], ["RUN", "r1", "--dir", "{D}/p/src"]],
+            "file_mode_then_directory_mode_grammar_broken_in_between": [["W", G, VALID], ["RUN", "r0", "--file", G], ["W", G, broken], ["RUN", "r1", "--dir", "{D}/p/src"]],
+            "other_grammar_compiled_first_then_broken_one": [["W", "{D}/p/src/ok.ebnf", VALID], ["W", G, broken], ["RUN", "r0", "--file", "{D}/p/src/ok.ebnf", "--dest", "{D}/p/ok.rs"], ["RUN", "r1", "--file", G, "--dest", OUT]],
+        }
+        for sname, script in scripts.items():
+            cells.append(Cell("one_process_%s_%s" % (sname, bname), "compile_script", "fail", "io_read", broken, {"script": script}))
+    cells.append(Cell("one_process_control_two_valid_runs", "compile_script", "ok", "control", VALID,
+                      {"script": [["W", "{D}/p/src/g.ebnf", VALID], ["RUN", "r0", "--file", "{D}/p/src/g.ebnf", "--dest", "{D}/p/out.rs"], ["CD", "{D}/p"], ["RUN", "r1", "--file", "src/g.ebnf", "--dest", "out2.rs"]]}))
     # Compile::directory pointed at a grammar file instead of a directory (the walk then has exactly one entry)
     cells.append(Cell("directory_is_a_grammar_file_valid", "compile_dir", "ok", "control", VALID, dest_setup="dir_is_grammar_file"))
     cells.append(Cell("directory_is_a_grammar_file_syntax_error", "compile_dir", "fail", "io_read", b"Zz1 = ('a' ;\n", dest_setup="dir_is_grammar_file"))
@@ -619,6 +675,12 @@ def build_cells(seed, tier, pool):
     for r in ROUTES + CLI_PARSE_ONLY_ROUTES:
         cells.append(Cell("nested_choice_groups_10", r, "ok", "control", nested_groups(10)))
         cells.append(Cell("nested_parentheses_100", r, "ok", "control", nested_parens(100)))
+        # realistic depths far below the generator's own limit (known finding at ~1000): must be answered with code on every route
+        if r != "cli_ast":  # --ast-only pretty-prints the tree: quadratic in the depth, minutes at this size (section 11.3)
+            cells.append(Cell("nested_parentheses_250", r, "ok", "control", nested_parens(250)))
+            cells.append(Cell("nested_parentheses_400", r, "ok", "control", nested_parens(400)))
+        cells.append(Cell("choice_of_600_alternatives", r, "ok", "control", ("Zz1 = " + " | ".join("'k%d'" % i for i in range(600)) + ";\n").encode()))
+        cells.append(Cell("sequence_of_600_parts", r, "ok", "control", ("Zz1 = " + " ".join("'k%d'" % i for i in range(600)) + ";\n").encode()))
         cells.append(Cell("nested_choice_groups_30", r, "nocrash", "rationale", nested_groups(30), timeout=8))
         cells.append(Cell("nested_parentheses_2000", r, "nocrash", "rationale", nested_parens(2000)))
     # syntax damage: any answer but a crash; all routes must agree on accept/reject
